@@ -190,7 +190,20 @@ func imageRunner(bin *authenticode.PECOFFBinary, signers []int, img []byte, own 
 			own.mu.Lock()
 			own.failAt = own.calls + 1 + op.Arg%8
 			own.mu.Unlock()
-			bin.Hash(crypto.SHA256)
+			// which call meets the failing reader varies: the first use of some part of the object (its certificate
+			// table, say) may be exactly this one
+			switch (op.Arg / 8) % 5 {
+			case 0:
+				bin.Hash(crypto.SHA256)
+			case 1:
+				bin.Verify(ids[signers[op.Arg%len(signers)]].Cert)
+			case 2:
+				bin.Signatures()
+			case 3:
+				_ = bin.Bytes()
+			default:
+				io.Copy(io.Discard, bin.Open())
+			}
 			own.mu.Lock()
 			own.failAt = 0
 			own.mu.Unlock()
@@ -353,6 +366,30 @@ func checkCase(c Case) error {
 			bin, err := authenticode.Parse(own)
 			if err != nil {
 				return nil, nil, fmt.Errorf("bad case: %v", err)
+			}
+			if shared && len(c.Img)%3 != 0 {
+				// the very first call on the shared object after Parse meets a reader that is failing for the moment (the
+				// twins it is compared with never see a fault): whatever that call set up or gave up on, the calls that
+				// follow, with the reader working again, must answer like a fresh object
+				own.mu.Lock()
+				own.failAt = own.calls + 1
+				own.mu.Unlock()
+				switch len(c.Img) % 5 {
+				case 0:
+					bin.Hash(crypto.SHA256)
+				case 1:
+					bin.Verify(gen.FixedIdents()[c.Signers[0]%len(gen.FixedIdents())].Cert)
+				case 2:
+					bin.Signatures()
+				case 3:
+					_ = bin.Bytes()
+				default:
+					io.Copy(io.Discard, bin.Open())
+				}
+				own.mu.Lock()
+				own.failAt = 0
+				own.mu.Unlock()
+				hx.Class("image_first_call_meets_a_failing_reader")
 			}
 			return imageRunner(bin, c.Signers, c.Img, own, &concurrentPhase), func() string { return digest(bin.Bytes()) + digest(bin.Hash(crypto.SHA256)) }, nil
 		case "database":
